@@ -24,8 +24,15 @@ func init() {
 		Run:  runC05,
 		Explanation: "Decides the structural half of 'lexing terminates and every parsed kind is printed': every unbounded loop of the lexer, the tokenizer and the Cache-Control lexer/parser advances the input position (directly or through a function that does so on all its paths) on every cycle that returns to the loop head, and has an exit guarded by an end-of-input test (EOF case, bounds test, or the negation of a character-class predicate that rejects EOF); " +
 			"the value-kind dispatches of the printer / JSON writer / copier / comparer cover all nine value kinds or fail loudly; every printer callback is registered and the Definition/Extension sibling handlers of each type kind set the same printer state and print the same parts of the node; every content field of an AST node that the parser fills is read on the print path (printer callbacks, the SimpleWalker that drives them, their callees), per Document slice the node ends up in. " +
-			"Not decided: absence of panics on arbitrary bytes, positions inside the input, print∘parse round-trip equality, limit accounting (value level); termination of the recursive-descent parser itself is NOT claimed (its loops rely on a report-error-then-exit idiom that needs a consume-or-report summary this checker does not have — see DESIGN §2 C05).",
+			"every cycle of every unbounded loop of the recursive-descent parser consumes a real (known non-EOF) token before it returns to the loop head, or leaves the loop (consume / consume-or-report summaries with and without a peeked token, report.HasErrors() edges). " +
+			"Not decided: absence of panics on arbitrary bytes, positions inside the input, print∘parse round-trip equality as values, limit accounting (value level), depth of recursion.",
 		Mutants: []Mutant{
+			{Name: "list value loop no longer leaves on a reported error (hangs on a truncated list)", File: "v2/pkg/astparser/parser.go", Rule: "C05-R5", Key: "Parser.parseValueList/loop1",
+				Old: "\t\t\tlist.Refs = append(list.Refs, ref)\n\t\t}\n\n\t\tif p.report.HasErrors() {\n\t\t\treturn ast.InvalidRef\n\t\t}\n", New: "\t\t\tlist.Refs = append(list.Refs, ref)\n\t\t}\n"},
+			{Name: "object value loop: unexpected token reported by peeking, not reading", File: "v2/pkg/astparser/parser.go", Rule: "C05-R5", Key: "Parser.parseObjectValue/loop1",
+				Old: "\t\tdefault:\n\t\t\tp.errUnexpectedToken(p.read(), keyword.IDENT, keyword.RBRACE)\n\t\t\treturn ast.InvalidRef, position.Position{}\n\t\t}\n\n\t\tif p.report.HasErrors() {\n\t\t\treturn ast.InvalidRef, position.Position{}\n\t\t}\n", New: "\t\tdefault:\n\t\t\tif p.reportInternalErrors {\n\t\t\t\tp.errUnexpectedToken(p.read(), keyword.IDENT, keyword.RBRACE)\n\t\t\t\treturn ast.InvalidRef, position.Position{}\n\t\t\t}\n\t\t}\n\n\t\tif p.report.HasErrors() {\n\t\t\treturn ast.InvalidRef, position.Position{}\n\t\t}\n"},
+			{Name: "directive list reads the @ only when a name follows", File: "v2/pkg/astparser/parser.go", Rule: "C05-R5", Key: "Parser.parseDirectiveList/loop1",
+				Old: "\t\tat := p.read()\n\t\tname := p.mustRead(keyword.IDENT)\n", New: "\t\tat := p.tokenizer.Peek()\n\t\tif p.reportInternalErrors {\n\t\t\tp.read()\n\t\t}\n\t\tname := p.tokenizer.Peek()\n"},
 			{Name: "schema description not printed (the repaired defect F13)", File: "v2/pkg/astprinter/astprinter.go", Rule: "C05-R4", Key: "parsed-is-printed/SchemaDefinitions:SchemaDefinition.Description",
 				Old: "\tif p.document.SchemaDefinitions[ref].Description.IsDefined {\n\t\tp.must(p.document.PrintDescription(p.document.SchemaDefinitions[ref].Description, nil, 0, p.out))\n\t\tp.write(literal.LINETERMINATOR)\n\t}\n", New: ""},
 			{Name: "simple walker no longer visits the directives of a schema definition (seeded change C05-12)", File: "v2/pkg/astvisitor/simplevisitor.go", Rule: "C05-R4", Key: "parsed-is-printed/SchemaDefinitions:SchemaDefinition.HasDirectives",
@@ -89,6 +96,10 @@ func runC05(r *fw.Run) {
 	// ---- R4 parser/printer agreement ------------------------------------------------------------------
 	r.Rule("C05-R4", "every content field of an AST node that the parser fills is read on the print path (printer callbacks, the SimpleWalker driving them, and their callees)")
 	parsePrintAgreement(r, "C05-R4")
+
+	// ---- R5 parser termination ------------------------------------------------------------------------
+	r.Rule("C05-R5", "every cycle of every unbounded loop of the recursive-descent parser consumes a real (non-EOF) token before it returns to the loop head, or leaves the loop")
+	checkParserProgress(r, "C05-R5")
 }
 
 // checkProgress implements the loop-progress rule for one package and returns the number of loops examined.
@@ -1001,4 +1012,335 @@ func parsePrintAgreement(r *fw.Run, rule string) {
 		}
 	}
 	r.Expect(rule, "content fields of AST nodes filled by the parser", n, 150)
+}
+
+// checkParserProgress (R5): the recursive-descent parser terminates. Every cycle of every unbounded loop of Parser
+// definitely consumes a real token (one that is known not to be EOF when it is read, or whose keyword was compared equal to
+// a non-EOF constant afterwards) before it returns to the loop head, or leaves the loop. A raw read at end of input
+// does not advance the tokenizer and therefore never counts. Since every cycle removes at least one of finitely many tokens,
+// the loop ends. (The depth of the recursion is not bounded by this rule; see DESIGN §9.)
+//
+// Facts (per path): C = a real token was consumed; E = an error is in the report; P = C ∨ E (one correlated fact);
+// NE = the next token is known not to be EOF (peek test). On the false edge of report.HasErrors() nothing was reported,
+// so P implies C there. Function summaries (least fixed point): mustC, mustP, mustE.
+func checkParserProgress(r *fw.Run, rule string) {
+	p := r.Prog
+	pk := p.Pkg("astparser")
+	if pk == nil {
+		r.Error("%s: package astparser not loaded", rule)
+		return
+	}
+	info := pk.TypesInfo
+	isParserMethod := func(fn *types.Func, names ...string) bool {
+		if fn == nil {
+			return false
+		}
+		sig, _ := fn.Type().(*types.Signature)
+		if sig == nil || sig.Recv() == nil || fw.RecvName(sig.Recv().Type()) != "Parser" || fn.Pkg() != pk.Types {
+			return false
+		}
+		for _, n := range names {
+			if fn.Name() == n {
+				return true
+			}
+		}
+		return false
+	}
+	isEOFConst := func(e ast.Expr) bool {
+		c := fw.ConstObj(info, e)
+		return c != nil && c.Name() == "EOF"
+	}
+	isNonEOFConst := func(e ast.Expr) bool {
+		c := fw.ConstObj(info, e)
+		return c != nil && c.Name() != "EOF" && (strings.HasSuffix(c.Pkg().Path(), "/keyword") || strings.HasSuffix(c.Pkg().Path(), "/identkeyword"))
+	}
+	// the checked-read helpers: read exactly one token first, report an error unless it is the expected (non-EOF) kind
+	checkedRead := map[string]bool{"mustRead": true, "mustReadIdentKey": true, "mustReadExceptIdentKey": true, "mustReadOneOf": true}
+	mustC, mustP, mustE := map[*types.Func]bool{}, map[*types.Func]bool{}, map[*types.Func]bool{}
+	mustCne, mustPne := map[*types.Func]bool{}, map[*types.Func]bool{} // the same when the function is entered with NE (the caller peeked)
+
+	type fnState struct {
+		peekVars map[types.Object]bool // locals holding the peeked keyword
+		rawVars  map[types.Object]bool // locals holding a token read without knowing it is not EOF
+	}
+	hooks := func(fi *fw.FuncInfo, in *fw.Interp) fw.Hooks {
+		fs := &fnState{peekVars: map[types.Object]bool{}, rawVars: map[types.Object]bool{}}
+		// pre-scan assignments: x := p.peek() / x, _ := p.peekLiteral() / x := p.read()
+		fw.WalkAll(fi.Decl.Body, func(nd ast.Node) bool {
+			as, ok := nd.(*ast.AssignStmt)
+			if !ok || len(as.Rhs) != 1 {
+				return true
+			}
+			c, ok := ast.Unparen(as.Rhs[0]).(*ast.CallExpr)
+			if !ok {
+				return true
+			}
+			fn := fw.Callee(info, c)
+			if id, isID := as.Lhs[0].(*ast.Ident); isID {
+				o := info.Defs[id]
+				if o == nil {
+					o = info.Uses[id]
+				}
+				if o != nil && isParserMethod(fn, "peek", "peekLiteral") {
+					fs.peekVars[o] = true
+				}
+				if o != nil && isParserMethod(fn, "read") {
+					fs.rawVars[o] = true
+				}
+			}
+			return true
+		})
+		isPeek := func(e ast.Expr) bool {
+			e = ast.Unparen(e)
+			if c, ok := e.(*ast.CallExpr); ok {
+				return isParserMethod(fw.Callee(info, c), "peek")
+			}
+			if id, ok := e.(*ast.Ident); ok {
+				return fs.peekVars[info.Uses[id]]
+			}
+			return false
+		}
+		isRawKeyword := func(e ast.Expr) bool { // x.Keyword for a raw-read token x
+			sel, ok := ast.Unparen(e).(*ast.SelectorExpr)
+			if !ok || sel.Sel.Name != "Keyword" {
+				return false
+			}
+			id, ok := ast.Unparen(sel.X).(*ast.Ident)
+			return ok && fs.rawVars[info.Uses[id]]
+		}
+		consumed := func(st *fw.State) {
+			st.Set("C")
+			st.Set("P")
+			st.Kill("NE")
+		}
+		return fw.Hooks{
+			Lit: func(l *ast.FuncLit, ctx fw.LitCtx, st *fw.State) fw.LitMode { return fw.LitSkip },
+			Node: func(nd ast.Node, st *fw.State) {
+				c, ok := nd.(*ast.CallExpr)
+				if !ok {
+					return
+				}
+				fn := fw.Callee(info, c)
+				if fn == nil {
+					return
+				}
+				switch {
+				case isParserMethod(fn, "read"):
+					if st.Must("NE") {
+						consumed(st)
+					} else {
+						st.Set("raw-read")
+					}
+				case fn.Pkg() == pk.Types && checkedRead[fn.Name()] && isParserMethod(fn, fn.Name()):
+					expectsReal := fn.Name() != "mustRead" || (len(c.Args) == 1 && isNonEOFConst(c.Args[0]))
+					if st.Must("NE") {
+						consumed(st)
+					} else if expectsReal {
+						st.Set("P")
+						st.Kill("NE")
+					}
+				case fn.Pkg() != nil && strings.HasSuffix(fn.Pkg().Path(), "/operationreport") && strings.HasPrefix(fn.Name(), "Add") && strings.HasSuffix(fn.Name(), "Error"):
+					st.Set("E")
+					st.Set("P")
+				case mustC[fn], st.Must("NE") && mustCne[fn]:
+					consumed(st)
+				case st.Must("NE") && mustPne[fn] && !mustP[fn]:
+					st.Set("P")
+					st.Kill("NE")
+				case mustE[fn]:
+					st.Set("E")
+					st.Set("P")
+					st.Kill("NE")
+				case mustP[fn]:
+					st.Set("P")
+					st.Kill("NE")
+				default:
+					if fn.Pkg() == pk.Types && isParserMethod(fn, fn.Name()) && !isParserMethod(fn, "peek", "peekLiteral", "peekEquals", "peekEqualsIdentKey", "identKeywordToken", "identKeywordSliceRef") {
+						// another parser method may consume: what is known about the next token is gone
+						if p.FuncOf(fn) != nil && !isPureLookahead(p.FuncOf(fn)) {
+							st.Kill("NE")
+						}
+					}
+				}
+			},
+			Cond: func(e ast.Expr, branch bool, st *fw.State) {
+				e = ast.Unparen(e)
+				// report.HasErrors()
+				if c, ok := e.(*ast.CallExpr); ok {
+					fn := fw.Callee(info, c)
+					if fn != nil && fn.Name() == "HasErrors" && fn.Pkg() != nil && strings.HasSuffix(fn.Pkg().Path(), "/operationreport") {
+						if branch {
+							st.Set("E")
+							st.Set("P")
+						} else if st.Must("P") {
+							st.Set("C") // nothing was reported, so the progress was a consumed token
+						}
+						return
+					}
+					// peekEquals(K) / peekEqualsIdentKey(k)
+					if branch && isParserMethod(fn, "peekEqualsIdentKey") {
+						st.Set("NE")
+					}
+					if branch && isParserMethod(fn, "peekEquals") && len(c.Args) == 1 && isNonEOFConst(c.Args[0]) {
+						st.Set("NE")
+					}
+					return
+				}
+				be, ok := e.(*ast.BinaryExpr)
+				if !ok || (be.Op != token.EQL && be.Op != token.NEQ) {
+					return
+				}
+				eq := (be.Op == token.EQL) == branch
+				for _, pr := range [][2]ast.Expr{{be.X, be.Y}, {be.Y, be.X}} {
+					if isPeek(pr[0]) {
+						if eq && isNonEOFConst(pr[1]) {
+							st.Set("NE")
+						}
+						if !eq && isEOFConst(pr[1]) {
+							st.Set("NE")
+						}
+					}
+					if isRawKeyword(pr[0]) && st.Must("raw-read") && eq && isNonEOFConst(pr[1]) {
+						consumed(st) // the token read turned out to be a real one
+					}
+				}
+			},
+			Case: func(tag ast.Expr, vals []ast.Expr, match bool, st *fw.State) {
+				if vals == nil {
+					return
+				}
+				all, anyEOF := true, false
+				for _, v := range vals {
+					if isEOFConst(v) {
+						anyEOF = true
+					}
+					if !isNonEOFConst(v) {
+						all = false
+					}
+				}
+				if isPeek(tag) {
+					if match && all {
+						st.Set("NE")
+					}
+					if !match && anyEOF {
+						st.Set("NE")
+					}
+				}
+				if isRawKeyword(tag) && st.Must("raw-read") && match && all {
+					consumed(st)
+				}
+			},
+		}
+	}
+	var funcs []*fw.FuncInfo
+	for _, fi := range p.Funcs("astparser") {
+		if fi.Decl.Recv != nil && strings.HasPrefix(fi.Name(), "Parser.") {
+			funcs = append(funcs, fi)
+		}
+	}
+	for changed := true; changed; {
+		changed = false
+		for _, fi := range funcs {
+			if checkedRead[fi.Obj.Name()] || fi.Obj.Name() == "read" {
+				continue
+			}
+			in := fw.NewInterp(fi)
+			in.H = hooks(fi, in)
+			exit := in.Run(nil)
+			if exit == nil {
+				continue
+			}
+			for _, s := range []struct {
+				m map[*types.Func]bool
+				f string
+			}{{mustC, "C"}, {mustP, "P"}, {mustE, "E"}} {
+				if !s.m[fi.Obj] && exit.Must(s.f) {
+					s.m[fi.Obj] = true
+					changed = true
+				}
+			}
+			in2 := fw.NewInterp(fi)
+			in2.H = hooks(fi, in2)
+			ne := fw.NewState()
+			ne.Set("NE")
+			if exit2 := in2.Run(ne); exit2 != nil {
+				if !mustCne[fi.Obj] && exit2.Must("C") {
+					mustCne[fi.Obj] = true
+					changed = true
+				}
+				if !mustPne[fi.Obj] && exit2.Must("P") {
+					mustPne[fi.Obj] = true
+					changed = true
+				}
+			}
+		}
+	}
+	// sanity of the frozen helper table: each checked-read helper calls read exactly once on every path
+	for name := range checkedRead {
+		fi := p.Func("astparser", "Parser."+name)
+		if fi == nil {
+			r.Error("%s: helper Parser.%s not found", rule, name)
+			continue
+		}
+		in := fw.NewInterp(fi)
+		in.H = fw.Hooks{Node: func(nd ast.Node, st *fw.State) {
+			if c, ok := nd.(*ast.CallExpr); ok && isParserMethod(fw.Callee(info, c), "read") {
+				st.Inc("reads")
+			}
+		}}
+		exit := in.Run(nil)
+		r.Check(exit != nil && exit.Get("reads") == fw.Cnt{Min: 1, Max: 1}, rule, "Parser."+name+"/reads-exactly-one-token", fi.Pos(), "Parser."+name+" reads exactly one token on every path",
+			"the helper that the rule treats as 'reads one token and reports an error unless it is the expected kind' no longer reads exactly one token: the progress argument for every loop that uses it is void")
+	}
+	nLoops := 0
+	for _, fi := range funcs {
+		ord := 0
+		fw.WalkAll(fi.Decl.Body, func(nd ast.Node) bool {
+			fs, ok := nd.(*ast.ForStmt)
+			if !ok {
+				return true
+			}
+			ord++
+			key := fi.Name() + "/loop" + itoa(ord)
+			if isCountedLoop(info, fs) {
+				return true
+			}
+			nLoops++
+			in := fw.NewInterp(fi)
+			h := hooks(fi, in)
+			in.H = h
+			entry := fw.NewState()
+			if fs.Cond != nil {
+				for _, a := range flattenAnd(fs.Cond) {
+					h.Cond(a, true, entry)
+				}
+			}
+			next, _ := in.RunLoopBody(fs.Body.List, entry)
+			r.Check(next == nil || next.Must("C"), rule, key+"/consumes-a-token", p.Pos(fs.Pos()), "every cycle of the loop in "+fi.Name()+" consumes a real token before it returns to the loop head",
+				"a path returns to the loop head without having consumed a token that is known not to be EOF (and without passing the false edge of report.HasErrors() after a step that consumes or reports): on the first document that takes this path — typically a malformed or truncated one — the parser spins for ever; no example test hangs because none contains that token at that place")
+			return true
+		})
+	}
+	r.Expect(rule, "unbounded loops of the parser", nLoops, 10)
+}
+
+// isPureLookahead: the function calls neither read nor anything that may read (no Parser method other than peeks).
+func isPureLookahead(fi *fw.FuncInfo) bool {
+	info := fi.Info()
+	pure := true
+	fw.WalkAll(fi.Decl.Body, func(nd ast.Node) bool {
+		if c, ok := nd.(*ast.CallExpr); ok {
+			if fn := fw.Callee(info, c); fn != nil && fn.Pkg() == fi.Obj.Pkg() {
+				if sig, _ := fn.Type().(*types.Signature); sig != nil && sig.Recv() != nil && fw.RecvName(sig.Recv().Type()) == "Parser" {
+					switch fn.Name() {
+					case "peek", "peekLiteral", "peekEquals", "peekEqualsIdentKey", "identKeywordToken", "identKeywordSliceRef":
+					default:
+						pure = false
+					}
+				}
+			}
+		}
+		return true
+	})
+	return pure
 }
